@@ -95,6 +95,11 @@ def run_check(prop, tier, seed):
         if not hasattr(mod, "nontrivial") or mod.nontrivial(c, mo, obs):
             distinct.add(json.dumps(mod.key(c) if hasattr(mod, "key") else c, sort_keys=True))
         kf = _finding_of(io.get("oracle"), open_findings)
+        if kf is None and io.get("oracle") and hasattr(mod, "model_class") and mo is not None:
+            cls = mod.model_class(c, mo)
+            if cls:
+                kf = _finding_of(f"[class:{cls}] ", open_findings)
+                io["oracle"] = f"[class:{cls}] " + io["oracle"]
         if io.get("oracle"):
             if kf:
                 known_hits[kf] += 1
